@@ -842,7 +842,7 @@ func TestVerifC17StateMachine(t *testing.T) {
 // powers add up to more than MaxTotalVotingPower): on the unrepaired code they are VIOLATIONS
 // (the state machine halts), so they run only when VERIF_C17_F85=1.
 // THE ONE PLACE TO FLIP once fixes/F85 is applied: make this `!= "0"` (default on).
-func c17F85() bool { return os.Getenv("VERIF_C17_F85") == "1" }
+func c17F85() bool { return os.Getenv("VERIF_C17_F85") != "0" } // on by default: the finding is recorded in known_findings.json
 
 type c17Powers struct {
 	name   string
@@ -888,7 +888,7 @@ func c17GenPowers(r *vg.Rand) c17Powers {
 	case 9:
 		return c17Powers{"negative-then-over", []int64{-10, M, 11}}
 	case 10:
-		return c17Powers{fmt.Sprintf("max+%d-split-over-%d", 2+r.Intn(1000), n), split(M+2+r.Int63n(1<<40), n)}
+		return c17Powers{fmt.Sprintf("above-max-split-over-%d", n), split(M+2+r.Int63n(1<<40), n)}
 	}
 	ps := make([]int64, n)
 	for i := range ps {
@@ -911,12 +911,13 @@ func c17ValsOf(powers []int64, seed byte) []*types.Validator {
 
 // light-client-attack evidence whose conflicting block carries only the validator set (it is
 // decoded before anything else of the evidence is looked at)
-func c17OverflowEvidence(powers []int64, seed byte) *types.LightClientAttackEvidence {
+func c17OverflowEvidence(powers []int64, seed byte, withEmptySignedHeader bool) *types.LightClientAttackEvidence {
 	vals := c17ValsOf(powers, seed)
-	return &types.LightClientAttackEvidence{
-		ConflictingBlock: &types.LightBlock{ValidatorSet: &types.ValidatorSet{Validators: vals, Proposer: vals[0]}},
-		CommonHeight:     1,
+	lb := &types.LightBlock{ValidatorSet: &types.ValidatorSet{Validators: vals, Proposer: vals[0]}}
+	if withEmptySignedHeader {
+		lb.SignedHeader = &types.SignedHeader{}
 	}
+	return &types.LightClientAttackEvidence{ConflictingBlock: lb, CommonHeight: 1}
 }
 
 func c17PowersCoq(ps []int64) string { return vg.ZL(ps) }
@@ -930,7 +931,15 @@ func (e *c17SM) evidenceBlockCase(r *vg.Rand, pw c17Powers) (c17SMCase, error) {
 	if block == nil {
 		return c17SMCase{}, fmt.Errorf("HARNESS: createProposalBlock returned nil")
 	}
-	block.Evidence = types.EvidenceData{Evidence: types.EvidenceList{c17OverflowEvidence(pw.powers, byte(r.Intn(200)))}}
+	emptySH := r.Chance(30)
+	ev := c17OverflowEvidence(pw.powers, byte(r.Intn(200)), emptySH)
+	evHex := ""
+	if evpb, err := types.EvidenceToProto(ev); err == nil {
+		if bz, err := evpb.Marshal(); err == nil {
+			evHex = fmt.Sprintf("%x", bz)
+		}
+	}
+	block.Evidence = types.EvidenceData{Evidence: types.EvidenceList{ev}}
 	block.EvidenceHash = block.Evidence.Hash()
 	for i := r.Intn(3); i > 0; i-- { // some payload so that the block has more than one part now and then
 		block.Data.Txs = append(block.Data.Txs, types.Tx(r.Bytes(30000)))
@@ -948,7 +957,10 @@ func (e *c17SM) evidenceBlockCase(r *vg.Rand, pw c17Powers) (c17SMCase, error) {
 	if r.Bool() {
 		c.pre = append(c.pre, c17MkNRS(e.h, e.rd, 1))
 	}
-	c.pre = append(c.pre, c17MkProposal(e.h, e.rd, -1, pp.BlockID, pp.Signature, fmt.Sprintf("signed by validator %d, the proposer of this round; the block carries LightClientAttackEvidence whose validator set has the voting powers %v", e.proposer, pw.powers)))
+	pm := c17MkProposal(e.h, e.rd, -1, pp.BlockID, pp.Signature, fmt.Sprintf("signed by validator %d, the proposer of this round; the block carries LightClientAttackEvidence whose conflicting block has a validator set with the voting powers %v and %s; the evidence as tmproto.Evidence bytes: %s", e.proposer, pw.powers,
+		map[bool]string{false: "no signed header", true: "an empty signed header"}[emptySH], evHex))
+	pm.pb = &tmcons.Proposal{Proposal: *pp} // with the timestamp that was signed
+	c.pre = append(c.pre, pm)
 	T := int(parts.Total())
 	for i := 0; i < T; i++ {
 		pb, err := parts.GetPart(i).ToProto()
@@ -962,7 +974,7 @@ func (e *c17SM) evidenceBlockCase(r *vg.Rand, pw c17Powers) (c17SMCase, error) {
 			c.pre = append(c.pre, m)
 		}
 	}
-	c.kind = "f85:proposed-block-with-evidence:" + pw.name
+	c.kind = "f85:proposed-block-with-evidence:" + pw.name + map[bool]string{false: ":no-signed-header", true: ":empty-signed-header"}[emptySH]
 	return c, nil
 }
 
@@ -986,7 +998,10 @@ func TestVerifC17WireValSets(t *testing.T) {
 		t.Fatal("HARNESS: createProposalBlock returned nil")
 	}
 
-	run := func(id int, via int, pw c17Powers, withProposer bool, seed byte) {
+	run := func(id int, via int, pw c17Powers, withProposer bool, seed byte, sh int) {
+		if via <= 2 {
+			sh = 0
+		}
 		vals := c17ValsOf(pw.powers, seed)
 		var ok, panicked bool
 		var total int64
@@ -1031,8 +1046,15 @@ func TestVerifC17WireValSets(t *testing.T) {
 				}
 				ok, total = true, vs.TotalVotingPower()
 			default:
+				lbp := &tmproto.LightBlock{ValidatorSet: vsp}
+				switch sh {
+				case 1:
+					lbp.SignedHeader = &tmproto.SignedHeader{}
+				case 2:
+					lbp.SignedHeader = &tmproto.SignedHeader{Header: &tmproto.Header{}}
+				}
 				evp := tmproto.Evidence{Sum: &tmproto.Evidence_LightClientAttackEvidence{LightClientAttackEvidence: &tmproto.LightClientAttackEvidence{
-					ConflictingBlock: &tmproto.LightBlock{ValidatorSet: vsp}, CommonHeight: 1}}}
+					ConflictingBlock: lbp, CommonHeight: 1}}}
 				if via == 3 {
 					bz, _ := evp.Marshal()
 					var back tmproto.Evidence
@@ -1069,11 +1091,11 @@ func TestVerifC17WireValSets(t *testing.T) {
 		if withProposer && len(vals) > 0 && via != 2 {
 			prop = vg.Opt(true, vg.Z(pw.powers[0]))
 		}
-		term := vg.App("CValSet", vg.N(uint64(via)), c17PowersCoq(pw.powers), prop, vg.B(ok), vg.B(panicked), vg.Z(total))
+		term := vg.App("CValSet", vg.N(uint64(via)), c17PowersCoq(pw.powers), prop, vg.N(uint64(sh)), vg.B(ok), vg.B(panicked), vg.Z(total))
 		viaName := []string{"", "types.ValidatorSetFromProto(bytes)", "types.ValidatorSetFromExistingValidators", "types.EvidenceFromProto(bytes of LightClientAttackEvidence{ConflictingBlock{ValidatorSet}})", "types.BlockFromProto(bytes of a proposal block carrying that evidence)"}[via]
-		descr := fmt.Sprintf("%s; validator set: ed25519 keys from seeds %d.., 20-byte addresses, voting powers %v, proposer = validator 0: %v | ok=%v total=%d | %s",
-			viaName, seed, pw.powers, withProposer, ok, total, errText)
-		cs.Add(id, fmt.Sprintf("f85:via%d:%s", via, pw.name), true, term, descr)
+		descr := fmt.Sprintf("%s; validator set: ed25519 keys from seeds %d.., 20-byte addresses, voting powers %v, proposer = validator 0: %v; conflicting block's signed header: %s | ok=%v total=%d | %s",
+			viaName, seed, pw.powers, withProposer, []string{"absent", "present, no header", "present, zero-valued header"}[sh], ok, total, errText)
+		cs.Add(id, fmt.Sprintf("f85:via%d:sh%d:%s", via, sh, pw.name), true, term, descr)
 	}
 
 	M := types.MaxTotalVotingPower
@@ -1083,7 +1105,7 @@ func TestVerifC17WireValSets(t *testing.T) {
 		for _, pw := range directed {
 			id := cs.NextID()
 			if cs.Want(id) {
-				run(id, via, pw, true, 11)
+				run(id, via, pw, true, 11, (via+len(pw.powers))%2)
 			}
 		}
 	}
@@ -1094,7 +1116,7 @@ func TestVerifC17WireValSets(t *testing.T) {
 			continue
 		}
 		r := root.Fork(uint64(k))
-		run(id, 1+k%4, c17GenPowers(r), !r.Chance(10), byte(r.Intn(200)))
+		run(id, 1+k%4, c17GenPowers(r), !r.Chance(10), byte(r.Intn(200)), []int{0, 0, 1, 2}[r.Intn(4)])
 	}
 	if err := cs.Write(); err != nil {
 		t.Fatal(err)
